@@ -17,12 +17,16 @@ Inter == 0..2
 Supplied == {"all", "missing", "reordered"}
 Ekus == {"accepted", "other"}
 Anchors == {"system", "user", "none", "issuer"}
+\* the end-entity allow list holds nothing relevant, the leaf itself, or the certificate of the leaf's direct issuer (a CA on the
+\* end-entity list vouches for nothing: the list is matched against the signing certificate only)
+Allows == {"none", "leaf", "issuer"}
 VARIABLES inter, supplied, wrongIssuer, eku, anchor, allow, ekuConfig, verifyTrust
 vars == <<inter, supplied, wrongIssuer, eku, anchor, allow, ekuConfig, verifyTrust>>
 Init == /\ inter \in Inter /\ supplied \in Supplied /\ wrongIssuer \in BOOLEAN /\ eku \in Ekus
-        /\ anchor \in Anchors /\ allow \in BOOLEAN /\ ekuConfig \in {"default", "extended"} /\ verifyTrust \in BOOLEAN
+        /\ anchor \in Anchors /\ allow \in Allows /\ ekuConfig \in {"default", "extended"} /\ verifyTrust \in BOOLEAN
         /\ (inter = 0 => supplied = "all")                 \* nothing to omit or reorder
         /\ (anchor = "issuer" => inter >= 1)               \* with no intermediate the issuer is the root itself
+        /\ (allow = "issuer" => inter >= 1)
 Next == UNCHANGED vars
 Spec == Init /\ [][Next]_vars
 
@@ -33,12 +37,13 @@ PathOK == /\ ~wrongIssuer
                [] anchor = "issuer" -> TRUE                                   \* partial chain: the issuer itself is the anchor
                [] OTHER -> (inter = 0 \/ supplied # "missing")                \* the direct issuer must be available to reach the root
 Decision == IF ~verifyTrust THEN "none"
-            ELSE IF allow THEN "trusted"
+            ELSE IF allow = "leaf" THEN "trusted"
             ELSE IF EkuOK /\ PathOK THEN "trusted" ELSE "untrusted"
 
 \* properties of the policy
-NeverTrustedWithoutBasis == Decision = "trusted" => allow \/ (anchor # "none" /\ ~wrongIssuer)
+NeverTrustedWithoutBasis == Decision = "trusted" => allow = "leaf" \/ (anchor # "none" /\ ~wrongIssuer)
 OffMeansSilent == ~verifyTrust => Decision = "none"
-AllowListSuffices == (verifyTrust /\ allow) => Decision = "trusted"
-OrderIrrelevant == supplied = "reordered" => Decision = (IF ~verifyTrust THEN "none" ELSE IF allow \/ (EkuOK /\ ~wrongIssuer /\ anchor # "none") THEN "trusted" ELSE "untrusted")
+AllowListSuffices == (verifyTrust /\ allow = "leaf") => Decision = "trusted"
+IssuerOnAllowListIsNoBasis == (verifyTrust /\ allow = "issuer" /\ anchor = "none") => Decision = "untrusted"
+OrderIrrelevant == supplied = "reordered" => Decision = (IF ~verifyTrust THEN "none" ELSE IF allow = "leaf" \/ (EkuOK /\ ~wrongIssuer /\ anchor # "none") THEN "trusted" ELSE "untrusted")
 =============================================================================
